@@ -1,5 +1,988 @@
 package main
 
-func c17Witnesses(c *Cfg) {}
+// C17, module-file part: "Formatting a parsed module file and parsing it again yields the
+// same module file, and unknown or malformed fields are rejected rather than dropped."
+//
+// (a) generated modfile.File values -> Format -> Parse -> field-by-field comparison, and
+//     Format(Parse(Format f)) byte-equal to Format f                      (direct checks)
+// (b) generated data trees (valid ones and mutations) rendered as CUE text -> Parse;
+//     the accept/reject verdict and the decoded File go to the Lean model
+//     (CueVerif.Modfile.decode) as the op
+//         mfdecode <tree> <current> <okmain> <okdeps>
+//     and for every ACCEPTED text no field of the input tree may be missing from
+//     Format(Parse(text)) re-read as data ("rejected rather than dropped").
+//
+// Tree encoding (one word, comma separated prefix notation):
+//   s<hex> string (s- empty) | t | f | z (null) | n<int> | o<k> k*(<hex key>,tree) | l<k> k*tree
 
-func c17Modfile(c *Cfg, r *Rng) {}
+import (
+	"bytes"
+	"encoding/json"
+	"fmt"
+	"sort"
+	"strconv"
+	"strings"
+
+	"cuelang.org/go/cue/cuecontext"
+	"cuelang.org/go/cue/literal"
+	"cuelang.org/go/internal/cueversion"
+	"cuelang.org/go/internal/mod/semver"
+	"cuelang.org/go/mod/modfile"
+	"cuelang.org/go/mod/module"
+)
+
+type c17mfVal struct {
+	kind  byte // 's' 'b' 'z' 'n' 'o' 'l'
+	s     string
+	b     bool
+	n     int64
+	keys  []string
+	vals  []*c17mfVal
+	elems []*c17mfVal
+}
+
+func c17mfS(s string) *c17mfVal { return &c17mfVal{kind: 's', s: s} }
+func c17mfB(b bool) *c17mfVal   { return &c17mfVal{kind: 'b', b: b} }
+func c17mfN(n int64) *c17mfVal  { return &c17mfVal{kind: 'n', n: n} }
+func c17mfZ() *c17mfVal         { return &c17mfVal{kind: 'z'} }
+func c17mfO() *c17mfVal         { return &c17mfVal{kind: 'o'} }
+
+func (v *c17mfVal) set(k string, x *c17mfVal) *c17mfVal {
+	for i, kk := range v.keys {
+		if kk == k {
+			v.vals[i] = x
+			return v
+		}
+	}
+	v.keys = append(v.keys, k)
+	v.vals = append(v.vals, x)
+	return v
+}
+
+func (v *c17mfVal) get(k string) *c17mfVal {
+	if v == nil || v.kind != 'o' {
+		return nil
+	}
+	for i, kk := range v.keys {
+		if kk == k {
+			return v.vals[i]
+		}
+	}
+	return nil
+}
+
+func (v *c17mfVal) del(k string) {
+	for i, kk := range v.keys {
+		if kk == k {
+			v.keys = append(v.keys[:i:i], v.keys[i+1:]...)
+			v.vals = append(v.vals[:i:i], v.vals[i+1:]...)
+			return
+		}
+	}
+}
+
+func (v *c17mfVal) sortKeys() {
+	if v.kind != 'o' {
+		return
+	}
+	idx := make([]int, len(v.keys))
+	for i := range idx {
+		idx[i] = i
+	}
+	sort.Slice(idx, func(a, b int) bool { return v.keys[idx[a]] < v.keys[idx[b]] })
+	ks := make([]string, len(idx))
+	vs := make([]*c17mfVal, len(idx))
+	for i, j := range idx {
+		ks[i], vs[i] = v.keys[j], v.vals[j]
+	}
+	v.keys, v.vals = ks, vs
+}
+
+func (v *c17mfVal) enc(sb *strings.Builder) {
+	switch v.kind {
+	case 's':
+		sb.WriteString("s" + H(v.s))
+	case 'b':
+		if v.b {
+			sb.WriteString("t")
+		} else {
+			sb.WriteString("f")
+		}
+	case 'z':
+		sb.WriteString("z")
+	case 'n':
+		sb.WriteString("n" + strconv.FormatInt(v.n, 10))
+	case 'o':
+		sb.WriteString("o" + strconv.Itoa(len(v.keys)))
+		for i, k := range v.keys {
+			sb.WriteString("," + H(k) + ",")
+			v.vals[i].enc(sb)
+		}
+	case 'l':
+		sb.WriteString("l" + strconv.Itoa(len(v.elems)))
+		for _, e := range v.elems {
+			sb.WriteString(",")
+			e.enc(sb)
+		}
+	default:
+		sb.WriteString("x")
+	}
+}
+
+func c17mfEnc(v *c17mfVal) string {
+	var sb strings.Builder
+	v.enc(&sb)
+	return sb.String()
+}
+
+func (v *c17mfVal) cue(sb *strings.Builder) {
+	switch v.kind {
+	case 's':
+		sb.WriteString(literal.String.Quote(v.s))
+	case 'b':
+		sb.WriteString(strconv.FormatBool(v.b))
+	case 'z':
+		sb.WriteString("null")
+	case 'n':
+		sb.WriteString(strconv.FormatInt(v.n, 10))
+	case 'o':
+		sb.WriteString("{")
+		for i, k := range v.keys {
+			if i > 0 {
+				sb.WriteString(", ")
+			}
+			sb.WriteString(literal.String.Quote(k) + ": ")
+			v.vals[i].cue(sb)
+		}
+		sb.WriteString("}")
+	case 'l':
+		sb.WriteString("[")
+		for i, e := range v.elems {
+			if i > 0 {
+				sb.WriteString(", ")
+			}
+			e.cue(sb)
+		}
+		sb.WriteString("]")
+	}
+}
+
+// c17mfText renders the top-level struct as the body of a module.cue file.
+func c17mfText(top *c17mfVal) string {
+	var sb strings.Builder
+	for i, k := range top.keys {
+		sb.WriteString(literal.String.Quote(k) + ": ")
+		top.vals[i].cue(&sb)
+		sb.WriteString("\n")
+	}
+	return sb.String()
+}
+
+// c17mfFromAny converts decoded CUE data (as produced by Value.Decode into `any`) to a
+// tree with sorted struct keys.
+func c17mfFromAny(x any) *c17mfVal {
+	switch x := x.(type) {
+	case nil:
+		return c17mfZ()
+	case bool:
+		return c17mfB(x)
+	case string:
+		return c17mfS(x)
+	case int:
+		return c17mfN(int64(x))
+	case int64:
+		return c17mfN(x)
+	case []any:
+		v := &c17mfVal{kind: 'l'}
+		for _, e := range x {
+			v.elems = append(v.elems, c17mfFromAny(e))
+		}
+		return v
+	case map[string]any:
+		v := c17mfO()
+		for k, e := range x {
+			v.set(k, c17mfFromAny(e))
+		}
+		v.sortKeys()
+		return v
+	}
+	return &c17mfVal{kind: 'x', s: fmt.Sprintf("%T", x)}
+}
+
+// ---- pools ----
+
+var c17mfBases = []string{"foo.com", "bar.com", "example.com/a/b", "x.test/m", "a-b.example/q_1", "baz.org/x"}
+
+func c17mfLangPool() []string {
+	return []string{
+		"v0.8.0-alpha.0", "v0.8.0", "v0.8.2", "v0.9.0-alpha.0", "v0.9.0-alpha.3", "v0.9.0", "v0.9.2",
+		"v0.10.0", "v0.12.0-rc.1", "v0.16.9", "v0.17.0-alpha.1", "v0.17.0", "v0.17.1",
+		cueversion.LanguageVersion(),
+	}
+}
+
+func c17mfAtLeast(lv, min string) bool { return semver.Compare(lv, min) >= 0 }
+
+func c17mfVersion(r *Rng, major int) string {
+	v := fmt.Sprintf("v%d.%d.%d", major, r.Intn(4), r.Intn(12))
+	if r.Chance(1, 5) {
+		v += Pick(r, []string{"-alpha.1", "-rc.2", "-0.x", "-beta"})
+	}
+	return v
+}
+
+func c17mfScalar(r *Rng) *c17mfVal {
+	switch r.Intn(5) {
+	case 0:
+		return c17mfN(int64(r.Intn(2000)) - 500)
+	case 1:
+		return c17mfS(Pick(r, []string{"", "x", "hello world", "a\"b\\c", "tab\there", "line\nbreak", "v1.2.3", "été"}))
+	case 2:
+		return c17mfB(r.Bool())
+	case 3:
+		return c17mfZ()
+	}
+	return c17mfN(int64(r.Intn(10)))
+}
+
+// c17mfData generates nested data with sorted struct keys.
+func c17mfData(r *Rng, depth int) *c17mfVal {
+	if depth <= 0 || r.Chance(1, 2) {
+		return c17mfScalar(r)
+	}
+	if r.Bool() {
+		v := &c17mfVal{kind: 'l'}
+		for i, n := 0, r.Intn(4); i < n; i++ {
+			v.elems = append(v.elems, c17mfData(r, depth-1))
+		}
+		return v
+	}
+	v := c17mfO()
+	for i, n := 0, r.Intn(4); i < n; i++ {
+		v.set(Pick(r, []string{"a", "b", "key", "x-y", "module", "v", "0", "with space"}), c17mfData(r, depth-1))
+	}
+	v.sortKeys()
+	return v
+}
+
+func c17mfToAny(v *c17mfVal) any {
+	switch v.kind {
+	case 's':
+		return v.s
+	case 'b':
+		return v.b
+	case 'n':
+		return v.n
+	case 'l':
+		out := []any{}
+		for _, e := range v.elems {
+			out = append(out, c17mfToAny(e))
+		}
+		return out
+	case 'o':
+		out := map[string]any{}
+		for i, k := range v.keys {
+			out[k] = c17mfToAny(v.vals[i])
+		}
+		return out
+	}
+	return nil
+}
+
+// c17mfCustomTree: custom: {ns: {key: data}} (nil = absent)
+func c17mfCustomTree(r *Rng) *c17mfVal {
+	switch r.Intn(5) {
+	case 0, 1:
+		return nil
+	case 2:
+		return c17mfO()
+	}
+	c := c17mfO()
+	for i, n := 0, 1+r.Intn(3); i < n; i++ {
+		ns := c17mfO()
+		for j, m := 0, r.Intn(4); j < m; j++ {
+			ns.set(Pick(r, []string{"a", "b", "opts", "x-y", "deps", "q r"}), c17mfData(r, 3))
+		}
+		ns.sortKeys()
+		c.set(Pick(r, []string{"legacy", "tool.example", "foo.com", "other.org/tool@v1", "no-dot"}), ns)
+	}
+	c.sortKeys()
+	return c
+}
+
+type c17mfDepSpec struct {
+	key, v, replace string
+	dflt            bool
+}
+
+// c17mfDeps generates valid strict dependencies: several majors of one base, at most one
+// default per base, never a default for the main module's base path.
+func c17mfDeps(r *Rng, mainBase string, lv string) []c17mfDepSpec {
+	var out []c17mfDepSpec
+	n := r.Intn(6)
+	if r.Chance(1, 4) {
+		n = 0
+	}
+	used := map[string]bool{}
+	hasDefault := map[string]bool{mainBase: true}
+	for i := 0; i < n; i++ {
+		base := Pick(r, c17mfBases)
+		major := r.Intn(4)
+		key := fmt.Sprintf("%s@v%d", base, major)
+		if used[key] {
+			continue
+		}
+		used[key] = true
+		d := c17mfDepSpec{key: key, v: c17mfVersion(r, major)}
+		if !hasDefault[base] && r.Chance(1, 3) {
+			d.dflt = true
+			hasDefault[base] = true
+		}
+		if c17mfAtLeast(lv, "v0.17.0") && r.Chance(1, 5) {
+			d.replace = Pick(r, []string{"./local", "../x/y", "/abs/dir", "other.com/y@v1", "other.com/y@v1.2.3"})
+		}
+		out = append(out, d)
+	}
+	return out
+}
+
+func c17mfModule(r *Rng) (string, string) {
+	base := Pick(r, c17mfBases)
+	switch r.Intn(5) {
+	case 0:
+		return base, base
+	}
+	return fmt.Sprintf("%s@v%d", base, r.Intn(4)), base
+}
+
+// ---- (a) File round trip ----
+
+func c17mfFileJSON(f *modfile.File) string {
+	type dep struct {
+		K, V, R string
+		D       bool
+	}
+	var deps []dep
+	for k, d := range f.Deps {
+		if d == nil {
+			deps = append(deps, dep{K: k, V: "<nil>"})
+			continue
+		}
+		deps = append(deps, dep{k, d.Version, d.ReplaceWith, d.Default})
+	}
+	sort.Slice(deps, func(i, j int) bool { return deps[i].K < deps[j].K })
+	lang, src := "<nil>", "<nil>"
+	if f.Language != nil {
+		lang = f.Language.Version
+	}
+	if f.Source != nil {
+		src = f.Source.Kind
+	}
+	cust, err := json.Marshal(f.Custom)
+	if err != nil {
+		cust = []byte("marshal-error: " + err.Error())
+	}
+	b, _ := json.Marshal(map[string]any{"module": f.Module, "language": lang, "source": src, "deps": deps, "custom": string(cust)})
+	return string(b)
+}
+
+func c17mfGenFile(r *Rng) *modfile.File {
+	mod, base := c17mfModule(r)
+	lv := Pick(r, c17mfLangPool())
+	f := &modfile.File{Module: mod, Language: &modfile.Language{Version: lv}}
+	if c17mfAtLeast(lv, "v0.9.0-alpha.0") {
+		switch r.Intn(3) {
+		case 0:
+			f.Source = &modfile.Source{Kind: "self"}
+		case 1:
+			f.Source = &modfile.Source{Kind: "git"}
+		}
+	}
+	deps := c17mfDeps(r, base, lv)
+	if len(deps) > 0 || r.Bool() {
+		f.Deps = map[string]*modfile.Dep{}
+	}
+	for _, d := range deps {
+		f.Deps[d.key] = &modfile.Dep{Version: d.v, Default: d.dflt, ReplaceWith: d.replace}
+	}
+	if ct := c17mfCustomTree(r); ct != nil {
+		f.Custom = map[string]map[string]any{}
+		for i, ns := range ct.keys {
+			f.Custom[ns] = c17mfToAny(ct.vals[i]).(map[string]any)
+		}
+	}
+	return f
+}
+
+func c17mfParse(text []byte) (f *modfile.File, err error) {
+	defer func() {
+		if e := recover(); e != nil {
+			f, err = nil, fmt.Errorf("PANIC: %v", e)
+		}
+	}()
+	return modfile.Parse(text, "module.cue")
+}
+
+func c17mfFormat(f *modfile.File) (b []byte, err error) {
+	defer func() {
+		if e := recover(); e != nil {
+			b, err = nil, fmt.Errorf("PANIC: %v", e)
+		}
+	}()
+	return modfile.Format(f)
+}
+
+func c17mfRoundTrip(c *Cfg, r *Rng) {
+	f := c17mfGenFile(r)
+	want := c17mfFileJSON(f)
+	c.Count(fmt.Sprintf("modfile/file/deps=%d", min(len(f.Deps), 4)))
+	if f.Source != nil {
+		c.Count("modfile/file/source=" + f.Source.Kind)
+	}
+	if f.Custom != nil {
+		c.Count(fmt.Sprintf("modfile/file/custom-namespaces=%d", len(f.Custom)))
+	}
+	if !strings.Contains(f.Module, "@") {
+		c.Count("modfile/file/module-without-major")
+	}
+	nDefault, nReplace := 0, 0
+	for _, d := range f.Deps {
+		if d.Default {
+			nDefault++
+		}
+		if d.ReplaceWith != "" {
+			nReplace++
+		}
+	}
+	if nDefault > 0 {
+		c.Count("modfile/file/with-default")
+	}
+	if nReplace > 0 {
+		c.Count("modfile/file/with-replaceWith")
+	}
+	c.Case("file "+want, len(f.Deps) > 0 || f.Custom != nil || f.Source != nil)
+	text, err := c17mfFormat(f)
+	if err != nil {
+		c.Direct(false, "modfile-format-error", "Format fails on a well-formed File: "+err.Error(), want)
+		return
+	}
+	g, err := c17mfParse(text)
+	if err != nil {
+		c.Direct(false, "modfile-roundtrip", "Parse(Format(f)) fails: "+err.Error(), map[string]any{"file": want, "text": string(text)})
+		return
+	}
+	got := c17mfFileJSON(g)
+	c.Direct(got == want, "modfile-roundtrip", "Parse(Format(f)) differs from f: got "+got, map[string]any{"file": want, "text": string(text)})
+	text2, err := c17mfFormat(g)
+	c.Direct(err == nil && bytes.Equal(text, text2), "modfile-format-stable", "Format(Parse(Format f)) != Format f", map[string]any{"file": want, "text": string(text), "text2": string(text2)})
+}
+
+// ---- (b) trees ----
+
+func c17mfValidTree(r *Rng) (top *c17mfVal, lv string) {
+	mod, base := c17mfModule(r)
+	lv = Pick(r, c17mfLangPool())
+	top = c17mfO()
+	top.set("module", c17mfS(mod))
+	top.set("language", c17mfO().set("version", c17mfS(lv)))
+	if c17mfAtLeast(lv, "v0.9.0-alpha.0") && r.Bool() {
+		top.set("source", c17mfO().set("kind", c17mfS(Pick(r, []string{"self", "git"}))))
+	}
+	deps := c17mfDeps(r, base, lv)
+	if len(deps) > 0 || r.Chance(1, 6) {
+		dv := c17mfO()
+		for _, d := range deps {
+			e := c17mfO().set("v", c17mfS(d.v))
+			if d.dflt {
+				e.set("default", c17mfB(true))
+			} else if r.Chance(1, 6) {
+				e.set("default", c17mfB(false))
+			}
+			if d.replace != "" {
+				e.set("replaceWith", c17mfS(d.replace))
+			} else if c17mfAtLeast(lv, "v0.17.0") && r.Chance(1, 10) {
+				e.set("replaceWith", c17mfS(""))
+			}
+			if r.Bool() {
+				Shuffle(r, e.keys) // keys only: values follow below
+				vals := make([]*c17mfVal, len(e.keys))
+				for i, k := range e.keys {
+					switch k {
+					case "v":
+						vals[i] = c17mfS(d.v)
+					case "default":
+						vals[i] = c17mfB(d.dflt)
+					case "replaceWith":
+						vals[i] = c17mfS(d.replace)
+					}
+				}
+				e.vals = vals
+			}
+			dv.set(d.key, e)
+		}
+		top.set("deps", dv)
+	}
+	if ct := c17mfCustomTree(r); ct != nil {
+		top.set("custom", ct)
+	}
+	if r.Bool() {
+		// permute the top-level fields
+		idx := make([]int, len(top.keys))
+		for i := range idx {
+			idx[i] = i
+		}
+		Shuffle(r, idx)
+		ks := make([]string, len(idx))
+		vs := make([]*c17mfVal, len(idx))
+		for i, j := range idx {
+			ks[i], vs[i] = top.keys[j], top.vals[j]
+		}
+		top.keys, top.vals = ks, vs
+	}
+	return top, lv
+}
+
+func c17mfWrong(r *Rng, not byte) *c17mfVal {
+	for {
+		var v *c17mfVal
+		switch r.Intn(6) {
+		case 0:
+			v = c17mfN(int64(r.Intn(5)))
+		case 1:
+			v = c17mfS(Pick(r, []string{"x", "yes", "v0.1.0", "self"}))
+		case 2:
+			v = c17mfB(r.Bool())
+		case 3:
+			v = c17mfZ()
+		case 4:
+			v = c17mfO()
+			if r.Bool() {
+				v.set("x", c17mfN(1))
+			}
+		case 5:
+			v = &c17mfVal{kind: 'l', elems: []*c17mfVal{c17mfS("a")}}
+		}
+		if v.kind != not {
+			return v
+		}
+	}
+}
+
+// c17mfAnyDep returns a random dependency entry of the tree (nil if none).
+func c17mfAnyDep(r *Rng, top *c17mfVal) *c17mfVal {
+	d := top.get("deps")
+	if d == nil || d.kind != 'o' || len(d.vals) == 0 {
+		return nil
+	}
+	e := d.vals[r.Intn(len(d.vals))]
+	if e.kind != 'o' {
+		return nil
+	}
+	return e
+}
+
+func c17mfEnsureDep(r *Rng, top *c17mfVal) *c17mfVal {
+	if e := c17mfAnyDep(r, top); e != nil {
+		return e
+	}
+	e := c17mfO().set("v", c17mfS("v0.3.1"))
+	top.set("deps", c17mfO().set("dep.example/z@v0", e))
+	return e
+}
+
+var c17mfUnknownNames = []string{"foo", "descriptio", "Module", "dependencies", "version", "v", "kind", "default", "replace", "Default", "", "x y", "module", "deps", "source", "custom", "language", "description", "replaceWith"}
+
+// c17mfUnknown picks a field name that is not among the known ones of the struct.
+func c17mfUnknown(r *Rng, known ...string) string {
+	for {
+		k := Pick(r, c17mfUnknownNames)
+		ok := true
+		for _, n := range known {
+			if n == k {
+				ok = false
+			}
+		}
+		if ok {
+			return k
+		}
+	}
+}
+
+// c17mfMutate applies one mutation and returns its name.
+func c17mfMutate(r *Rng, top *c17mfVal, lv string) string {
+	switch r.Intn(22) {
+	case 0:
+		top.set(c17mfUnknown(r, "module", "language", "source", "description", "deps", "custom"), c17mfWrong(r, 0))
+		return "unknown-top"
+	case 1:
+		if l := top.get("language"); l != nil {
+			if l.kind == 'o' {
+				l.set(c17mfUnknown(r, "version"), c17mfWrong(r, 0))
+			}
+		}
+		return "unknown-language"
+	case 2:
+		s := top.get("source")
+		if s == nil || s.kind != 'o' {
+			s = c17mfO().set("kind", c17mfS("git"))
+			top.set("source", s)
+		}
+		s.set(c17mfUnknown(r, "kind"), c17mfWrong(r, 0))
+		return "unknown-source"
+	case 3:
+		e := c17mfEnsureDep(r, top)
+		e.set(c17mfUnknown(r, "v", "default", "replaceWith"), c17mfWrong(r, 0))
+		return "unknown-dep"
+	case 4:
+		top.set("module", c17mfWrong(r, 's'))
+		return "wrongtype-module"
+	case 5:
+		top.set("language", c17mfWrong(r, 'o'))
+		return "wrongtype-language"
+	case 6:
+		top.set("language", c17mfO().set("version", c17mfWrong(r, 's')))
+		return "wrongtype-version"
+	case 7:
+		switch r.Intn(3) {
+		case 0:
+			top.del("language")
+		case 1:
+			top.set("language", c17mfO())
+		case 2:
+			top.set("language", c17mfO().set("version", c17mfS("")))
+		}
+		return "missing-language-version"
+	case 8:
+		top.set("source", c17mfWrong(r, 'o'))
+		return "wrongtype-source"
+	case 9:
+		if r.Bool() {
+			top.set("source", c17mfO().set("kind", c17mfWrong(r, 's')))
+		} else {
+			top.set("source", c17mfO().set("kind", c17mfS(Pick(r, []string{"hg", "", "Git", "svn", "self "}))))
+		}
+		return "bad-source-kind"
+	case 10:
+		top.set("deps", c17mfWrong(r, 'o'))
+		return "wrongtype-deps"
+	case 11:
+		e := c17mfEnsureDep(r, top)
+		switch r.Intn(4) {
+		case 0:
+			e.set("v", c17mfWrong(r, 's'))
+		case 1:
+			e.set("default", c17mfWrong(r, 'b'))
+		case 2:
+			e.set("replaceWith", c17mfWrong(r, 's'))
+		case 3:
+			e.set("v", c17mfS(""))
+		}
+		return "wrongtype-dep-field"
+	case 12:
+		d := top.get("deps")
+		if d == nil || d.kind != 'o' {
+			d = c17mfO()
+			top.set("deps", d)
+		}
+		d.set("dep.example/w@v1", c17mfWrong(r, 'o'))
+		return "wrongtype-dep-entry"
+	case 13:
+		c17mfEnsureDep(r, top).del("v")
+		return "missing-v"
+	case 14:
+		c17mfEnsureDep(r, top).set("replaceWith", c17mfS(Pick(r, []string{"./local", "other.com/y@v1", ""})))
+		return "replaceWith"
+	case 15:
+		if r.Bool() {
+			top.set("custom", c17mfWrong(r, 'o'))
+		} else {
+			top.set("custom", c17mfO().set("tool.example", c17mfWrong(r, 'o')))
+		}
+		return "wrongtype-custom"
+	case 16:
+		if r.Chance(1, 4) {
+			top.set("description", c17mfWrong(r, 's'))
+			return "wrongtype-description"
+		}
+		top.set("description", c17mfS(Pick(r, []string{"x", "", "A module that does things."})))
+		return "description"
+	case 17:
+		top.set("language", c17mfO().set("version", c17mfS(Pick(r, []string{
+			"v0.9", "v0", "v0.7.0", "v0.7.9", "v0.99.0", "v1.0.0", "0.9.0", "v0.9.0+meta", "v0.09.0", "latest", "v0.8.0-alpha", "v0.8.0-0", "v0.18.1", "v0.17.0-", " v0.9.0",
+		}))))
+		return "odd-language-version"
+	case 18:
+		switch r.Intn(3) {
+		case 0:
+			top.del("module")
+		default:
+			top.set("module", c17mfS(Pick(r, []string{"", "Foo.com", "foo.com@v1.2", "nodot@v0", "foo.com@", "@v1", "foo.com@v01", "foo.com/@v1", "local", "foo.com@latest", "foo.com@v1@v2"})))
+		}
+		return "odd-module"
+	case 19:
+		d := top.get("deps")
+		if d == nil || d.kind != 'o' {
+			d = c17mfO()
+			top.set("deps", d)
+		}
+		k := Pick(r, []string{"nomajor.example/a", "mis.example/m@v1", "Upper.example@v0", "noncanon.example@v0", "nodot@v0", "local", "twice.example@v0@v1", "build.example@v1"})
+		v := "v0.4.0"
+		switch k {
+		case "noncanon.example@v0":
+			v = "v0.4"
+		case "build.example@v1":
+			v = "v1.0.0+build"
+		case "local":
+			v = Pick(r, []string{"v0.1.0", ""})
+		}
+		d.set(k, c17mfO().set("v", c17mfS(v)))
+		return "odd-dep"
+	case 20:
+		// a second default for some base path (or one for the main module's base)
+		d := top.get("deps")
+		if d == nil || d.kind != 'o' {
+			d = c17mfO()
+			top.set("deps", d)
+		}
+		base := Pick(r, c17mfBases)
+		if m := top.get("module"); m != nil && m.kind == 's' && r.Bool() {
+			base, _, _ = strings.Cut(m.s, "@")
+		}
+		for _, maj := range []int{0, 1 + r.Intn(3)} {
+			d.set(fmt.Sprintf("%s@v%d", base, maj), c17mfO().set("v", c17mfS(c17mfVersion(r, maj))).set("default", c17mfB(true)))
+		}
+		return "double-default"
+	case 21:
+		switch r.Intn(3) {
+		case 0:
+			top.set("deps", c17mfO())
+		case 1:
+			top.set("custom", c17mfO())
+		case 2:
+			c17mfEnsureDep(r, top).set("default", c17mfB(false))
+		}
+		return "zero-valued"
+	}
+	return "none"
+}
+
+func c17mfOkMain(s string) bool {
+	defer func() { recover() }()
+	return (&modfile.File{Module: s}).Init() == nil
+}
+
+func c17mfOkDep(m, v string) (ok bool) {
+	defer func() {
+		if e := recover(); e != nil {
+			ok = false
+		}
+	}()
+	mv, err := module.NewVersion(m, v)
+	return err == nil && mv.Path() == m
+}
+
+// c17mfOracle computes the library verdicts the model takes as trusted parameters.
+func c17mfOracle(top *c17mfVal) (mains, deps string) {
+	mains, deps = "_", "_"
+	mod := ""
+	if m := top.get("module"); m != nil && m.kind == 's' {
+		mod = m.s
+	}
+	if c17mfOkMain(mod) {
+		mains = H(mod)
+	}
+	var ds []string
+	if d := top.get("deps"); d != nil && d.kind == 'o' {
+		for i, k := range d.keys {
+			v := ""
+			if x := d.vals[i].get("v"); x != nil && x.kind == 's' {
+				v = x.s
+			}
+			if c17mfOkDep(k, v) {
+				ds = append(ds, H(k)+":"+H(v))
+			}
+		}
+	}
+	if len(ds) > 0 {
+		deps = strings.Join(ds, ",")
+	}
+	return
+}
+
+// c17mfShowFile renders a parsed File exactly like the model driver's showModfile.
+func c17mfShowFile(f *modfile.File) string {
+	opt := func(ok bool, s string) string {
+		if !ok {
+			return "_"
+		}
+		return H(s)
+	}
+	lang, src := "_", "_"
+	if f.Language != nil {
+		lang = opt(true, f.Language.Version)
+	}
+	if f.Source != nil {
+		src = opt(true, f.Source.Kind)
+	}
+	deps := "_"
+	if len(f.Deps) > 0 {
+		keys := make([]string, 0, len(f.Deps))
+		for k := range f.Deps {
+			keys = append(keys, k)
+		}
+		sort.Strings(keys)
+		var parts []string
+		for _, k := range keys {
+			d := f.Deps[k]
+			b := "0"
+			if d.Default {
+				b = "1"
+			}
+			parts = append(parts, H(k)+":"+H(d.Version)+":"+b+":"+H(d.ReplaceWith))
+		}
+		deps = strings.Join(parts, ";")
+	}
+	cust := "_"
+	if f.Custom != nil {
+		m := map[string]any{}
+		for k, v := range f.Custom {
+			m[k] = v
+		}
+		cust = c17mfEnc(c17mfFromAny(m))
+	}
+	return "ok m=" + H(f.Module) + " l=" + lang + " s=" + src + " d=" + deps + " c=" + cust
+}
+
+// c17mfMissing returns the path of a field of `in` that is absent from (or different in)
+// `out`; "" if there is none.  Zero-valued optional fields (default: false,
+// replaceWith: "", deps: {}) are the same File as their absence and are not counted.
+func c17mfMissing(in, out *c17mfVal, path []string) string {
+	if out == nil || in.kind != out.kind {
+		return strings.Join(path, ".")
+	}
+	switch in.kind {
+	case 's':
+		if in.s != out.s {
+			return strings.Join(path, ".")
+		}
+	case 'b':
+		if in.b != out.b {
+			return strings.Join(path, ".")
+		}
+	case 'n':
+		if in.n != out.n {
+			return strings.Join(path, ".")
+		}
+	case 'l':
+		if len(in.elems) != len(out.elems) {
+			return strings.Join(path, ".")
+		}
+		for i := range in.elems {
+			if p := c17mfMissing(in.elems[i], out.elems[i], append(path[:len(path):len(path)], "["+strconv.Itoa(i)+"]")); p != "" {
+				return p
+			}
+		}
+	case 'o':
+		for i, k := range in.keys {
+			v := in.vals[i]
+			o := out.get(k)
+			if o == nil {
+				inDep := len(path) == 2 && path[0] == "deps"
+				switch {
+				case len(path) == 0 && k == "deps" && v.kind == 'o' && len(v.keys) == 0:
+					continue
+				case inDep && k == "default" && v.kind == 'b' && !v.b:
+					continue
+				case inDep && k == "replaceWith" && v.kind == 's' && v.s == "":
+					continue
+				}
+			}
+			if p := c17mfMissing(v, o, append(path[:len(path):len(path)], k)); p != "" {
+				return p
+			}
+		}
+	}
+	return ""
+}
+
+func c17mfTreeCase(c *Cfg, r *Rng, cur string) {
+	top, lv := c17mfValidTree(r)
+	mut := "valid"
+	if r.Chance(3, 4) {
+		mut = c17mfMutate(r, top, lv)
+		if r.Chance(1, 8) {
+			mut += "+" + c17mfMutate(r, top, lv)
+		}
+	}
+	for _, m := range strings.Split(mut, "+") {
+		c.Count("modfile/tree/mutation=" + m)
+	}
+	text := c17mfText(top)
+	tree := c17mfEnc(top)
+	mains, deps := c17mfOracle(top)
+	f, err := c17mfParse([]byte(text))
+	answer := "reject"
+	if err != nil && strings.HasPrefix(err.Error(), "PANIC") {
+		answer = "panic"
+	}
+	if err == nil {
+		answer = c17mfShowFile(f)
+		c.Count("modfile/tree/accepted")
+		for _, m := range strings.Split(mut, "+") {
+			c.Count("modfile/tree/accepted/" + m)
+		}
+	} else {
+		c.Count("modfile/tree/rejected")
+	}
+	c.Case("tree "+tree, mut != "valid")
+	c.Op("O", "mfdecode "+tree+" "+H(cur)+" "+mains+" "+deps, answer)
+	if err != nil {
+		return
+	}
+	// rejected rather than dropped: every field of the accepted input must survive
+	// Format(Parse(text)).
+	out, ferr := c17mfFormat(f)
+	if ferr != nil {
+		class := "modfile-format-error"
+		if e := c17mfNoVersionDep(top); e {
+			class = "modfile-parsed-unformattable"
+		}
+		c.Direct(false, class, "Parse accepts the text but Format rejects the parsed File: "+ferr.Error(), text)
+		return
+	}
+	var data any
+	if derr := cuecontext.New().CompileBytes(out).Decode(&data); derr != nil {
+		c.Direct(false, "modfile-format-error", "Format output is not data: "+derr.Error(), text)
+		return
+	}
+	miss := c17mfMissing(top, c17mfFromAny(data), nil)
+	class := "modfile-field-dropped"
+	if miss == "description" {
+		class = "modfile-description-dropped"
+		c.Count("modfile/tree/description-dropped")
+	}
+	c.Direct(miss == "", class, "field "+miss+" of an accepted module file is missing from Format(Parse(text))", map[string]any{"text": text, "formatted": string(out)})
+}
+
+func c17mfNoVersionDep(top *c17mfVal) bool {
+	d := top.get("deps")
+	if d == nil || d.kind != 'o' {
+		return false
+	}
+	for _, e := range d.vals {
+		if e.kind == 'o' && e.get("v") == nil {
+			return true
+		}
+	}
+	return false
+}
+
+func c17Modfile(c *Cfg, r *Rng) {
+	cur := cueversion.LanguageVersion()
+	for i, n := 0, c.Pick(1500, 15000); i < n; i++ {
+		c17mfRoundTrip(c, r.Sub())
+	}
+	for i, n := 0, c.Pick(3000, 30000); i < n; i++ {
+		c17mfTreeCase(c, r.Sub(), cur)
+	}
+}
